@@ -141,6 +141,9 @@ def message_strategy(xml_only=False):
     if not xml_only:
         opts.append(st.tuples(st.just('text'), st.text(max_size=60)))
         opts.append(st.tuples(st.just('text'), st.text(min_size=300, max_size=3000)))
+    # large messages around buffer-size boundaries (a Response with a few thousand attribute values is some hundred kB): [size in characters, filler]
+    sizes = st.builds(lambda e, d: (1 << e) + d, st.integers(12, 18), st.integers(-2, 2))
+    opts.append(st.tuples(st.just('big'), st.tuples(st.one_of(sizes, st.integers(4000, 300000)), st.sampled_from(['xml'] if xml_only else ['a', 'hex', u'\xe9<&>', 'xml'])).map(list)))
     return st.one_of(*opts).map(list)
 
 
@@ -148,6 +151,30 @@ def _message(m):
     kind, v = m
     if kind == 'lib':
         return str(_lib_message(*v))
+    if kind == 'big':
+        n, filler = v
+        if filler == 'hex':
+            import hashlib
+            out, i = [], 0
+            while 64 * len(out) < n:
+                out.append(hashlib.sha256(b'%d' % i).hexdigest())
+                i += 1
+            return ''.join(out)[:n]
+        if filler == 'xml':
+            if n < 8:
+                return '<r/>'
+            out, size, i = ['<r>'], 7, 0
+            while True:
+                item = '<v i="%d">value %d</v>' % (i, i)
+                if size + len(item) > n:
+                    break
+                out.append(item)
+                size += len(item)
+                i += 1
+            out.append('x' * (n - size))
+            out.append('</r>')
+            return ''.join(out)
+        return (filler * (n // len(filler) + 1))[:n]
     return v
 
 
